@@ -64,7 +64,11 @@ class _CallTimeout(BaseException):
     pass
 
 
+_alarm_fired = [False]
+
+
 def _on_alarm(signum, frame):
+    _alarm_fired[0] = True
     raise _CallTimeout()
 
 
@@ -83,6 +87,7 @@ def sut(fn, *args, allowed=(), **kwargs):
 
     use_alarm = threading.current_thread() is threading.main_thread() and SUT_TIMEOUT_S > 0
     if use_alarm:
+        _alarm_fired[0] = False
         old_handler = signal.signal(signal.SIGALRM, _on_alarm)
         signal.setitimer(signal.ITIMER_REAL, SUT_TIMEOUT_S)
     try:
@@ -97,6 +102,10 @@ def sut(fn, *args, allowed=(), **kwargs):
     except BaseException as e:  # noqa: BLE001
         if isinstance(e, (KeyboardInterrupt, SystemExit, MemoryError)):
             raise
+        if use_alarm and _alarm_fired[0]:
+            # the watchdog interrupted compiled code (numba reports that as SystemError, a
+            # solver callback may wrap it): still a timeout, never a verdict
+            raise Skip(f"timeout: call exceeded {SUT_TIMEOUT_S:.0f}s") from None
         tb = traceback.extract_tb(e.__traceback__)
         where = ""
         for fr in reversed(tb):
